@@ -275,6 +275,10 @@ struct Exec {
     /// segments, whose target is that opstamp, applies and publishes it)
     f8_cands: BTreeSet<u64>,
     first_del: bool,
+    /// a merge of committed segments can have run since such a delete: a merge policy is set, an
+    /// explicit merge was issued, or rollback() re-created the writer (which silently resets the
+    /// merge policy to the default LogMergePolicy)
+    merge_possible: bool,
     had_delete: bool,
     nsegs_max: usize,
     fresh: bool,
@@ -324,6 +328,7 @@ impl Exec {
             dirty_delete_all: false,
             f8_cands: BTreeSet::new(),
             first_del: false,
+            merge_possible: cfg.policy != 0,
             had_delete: false,
             nsegs_max: 0,
             fresh: false,
@@ -513,14 +518,20 @@ impl Exec {
             HOp::PrepareAbort => {
                 let r = self.writer.as_mut().unwrap().prepare_commit().and_then(|pc| pc.abort());
                 match r {
-                    Ok(o) => self.after_rollback(ctx, Some(o), "abort", case, out),
+                    Ok(o) => {
+                        self.merge_possible = true;
+                        self.after_rollback(ctx, Some(o), "abort", case, out)
+                    }
                     Err(e) => out.push(Finding { kind: "oracle", key: "C02:rollback-error".into(), what: format!("abort failed: {e}") }),
                 }
             }
             HOp::Rollback => {
                 let r = self.writer.as_mut().unwrap().rollback();
                 match r {
-                    Ok(o) => self.after_rollback(ctx, Some(o), "rollback", case, out),
+                    Ok(o) => {
+                        self.merge_possible = true;
+                        self.after_rollback(ctx, Some(o), "rollback", case, out)
+                    }
                     Err(e) => out.push(Finding { kind: "oracle", key: "C02:rollback-error".into(), what: format!("rollback failed: {e}") }),
                 }
             }
@@ -529,6 +540,7 @@ impl Exec {
                 ids.sort();
                 let chosen: Vec<_> = ids.iter().enumerate().filter(|(k, _)| (mask >> (k % 16)) & 1 == 1).map(|(_, i)| *i).collect();
                 if !chosen.is_empty() {
+                    self.merge_possible = true;
                     ctx.report.count("op:merge-started");
                     let fut = self.writer.as_mut().unwrap().merge(&chosen);
                     match fut.wait() {
@@ -860,7 +872,7 @@ impl Exec {
             for id in &missing {
                 if !lean_clean && self.f3_missing.contains(id) {
                     f3m.push(*id);
-                } else if lean_first && self.first_del && self.f8_cands.contains(id) {
+                } else if lean_first && self.first_del && self.merge_possible && self.f8_cands.contains(id) {
                     f8.push(*id);
                 } else {
                     other_m.push(*id);
@@ -1205,6 +1217,12 @@ fn corpus() -> Vec<Case> {
         Case { config: cfg(1, 0), ops: vec![HOp::DelTerm(Q::Id(5)), HOp::DelTerm(Q::Id(7)), HOp::Commit, HOp::DeleteAll, HOp::Add(7), HOp::Commit] },
         // F8: first delete of a re-created writer + merge of committed segments, no commit
         Case { config: cfg(1, 0), ops: vec![HOp::Add(7), HOp::Add(8), HOp::Commit, HOp::Rollback, HOp::DelTerm(Q::Id(7)), HOp::Merge(1), HOp::DropReopen(true)] },
+        // F8 through the merge policy (shape reported by the C01 check): one-document segments,
+        // reopen, first operation a delete by term, adds, wait_merging_threads without commit
+        Case { config: Config { threads: 1, cut: 1, policy: 2, mmap: false }, ops: vec![HOp::Add(1), HOp::Add(2), HOp::Add(3), HOp::Commit, HOp::DropReopen(true), HOp::DelTerm(Q::Grp(doc_grp(2))), HOp::Add(4), HOp::Add(5), HOp::Add(6), HOp::WaitMergeReopen] },
+        // the same with the delete as *second* operation: must equal the replay (a difference here
+        // would be a new violation, not F8)
+        Case { config: Config { threads: 1, cut: 1, policy: 2, mmap: false }, ops: vec![HOp::Add(1), HOp::Add(2), HOp::Add(3), HOp::Commit, HOp::DropReopen(true), HOp::Add(4), HOp::DelTerm(Q::Grp(doc_grp(2))), HOp::Add(5), HOp::Add(6), HOp::WaitMergeReopen] },
         // clean delete_all: equals replay
         Case { config: cfg(2, 1), ops: vec![HOp::Add(1), HOp::Add(2), HOp::Commit, HOp::DropReopen(true), HOp::DeleteAll, HOp::Add(3), HOp::Commit, HOp::Add(4), HOp::Rollback, HOp::DeleteAll, HOp::Commit] },
         // delete only earlier, same segment / other segment / committed segment
